@@ -263,7 +263,11 @@ class AnsiString:
                 settings_to_apply = []
                 old_settings = current_settings
                 current_settings = new_settings
-                for setting_key, setting_value in new_settings.items():
+                for setting_value in settings:
+                    setting_key = setting_value.to_effect()
+                    if new_settings.get(setting_key) is not setting_value:
+                        # Overridden later in this sequence, cleared, or not a known setting
+                        continue
                     if setting_key in old_settings:
                         if old_settings[setting_key] != setting_value:
                             settings_to_remove.append(old_settings[setting_key])
